@@ -707,7 +707,8 @@ class Engine:
             if ak == "adt":
                 # `Self { ..x }` / a struct rebuilt from all fields of one value, in order: that value (a plain move)
                 fnames = rv.get("field_names") or []
-                if len(fs) >= 2 and len(fnames) == len(fs) and all(f[0] == "field" and len(f) == 3 and f[1] == fs[0][1] and str(f[2]) == str(n_) for f, n_ in zip(fs, fnames)):
+                if len(fs) >= 2 and len(fnames) == len(fs) and all(f[0] == "field" and len(f) == 3 and f[1] == fs[0][1] and str(f[2]) == str(n_) for f, n_ in zip(fs, fnames)) \
+                        and all(self._field_of_same_adt(o_, rv["path"]) for o_ in rv["fields"]):
                     return fs[0][1]
                 return ("adt", rv["path"], rv["variant"], fs)
             if ak == "tuple":
@@ -727,6 +728,15 @@ class Engine:
         if k == "repeat":
             return ("app", "repeat", (self.operand(path, rv["op"]),))
         return ("havoc", rv.get("s", k))
+
+    @staticmethod
+    def _field_of_same_adt(o, path):
+        """the operand reads a field of a value of the very type that is being built (not of another type with equal field names)"""
+        p = o.get("p") if o.get("k") in ("copy", "move") else None
+        if not p or not p["pj"] or p["pj"][-1]["k"] != "field":
+            return False
+        a = str(p["pj"][-1].get("adt", ""))
+        return a == path or a.split("<")[0] == str(path).split("<")[0]
 
     def binop(self, op, a, b):
         if op in ("Add", "AddWithOverflow", "AddUnchecked"):
